@@ -311,6 +311,12 @@ def run(ctx):
         r3.check(res_off == {"1": S("RUNNING")} and len(squeue2) == 1, gcon + "::accounting-off", "with accounting disabled the state comes from the live queue only",
                  f"with accounting disabled the state map is {res_off}", gjs.where)
 
+    _r, _e, q3, _s, _m = eval_slurm_states(ctx, 5, False, fail="squeue")
+    r3.check(not q3, gcon + "::sacct-guard-on-failure", "with accounting disabled sacct is not run when the queue query fails either",
+             f"with accounting disabled and the queue query failing the accounting database is queried ({len(q3)} sacct call(s)): the switch no longer governs which commands run", gjs.where)
+    from .shared import rule_config_switch
+    rule_config_switch(ctx, r3, "backend.slurm.accounting_enabled", "the Slurm backend receives its accounting switch (create_backend(**namespace))", via_namespace="backend.slurm")
+
     # ------------------------------------------------------------------ R4 identity across pool restarts (known design gap D23)
     r4 = ctx.rule("R4", "a tracked id denotes the same job across invocations")
     info = scheduler_info(ctx)
